@@ -40,7 +40,7 @@ theorem sigClass_registered_iff (s : St) (e : Nat) (g : Sig) :
                   · exact ⟨o, rfl, by simpa using hc, by simpa using he, ⟨ep, rfl, a, b, c⟩, d⟩
                   · exfalso
                     have d' : (signersOf s.regs (o.epoch - 1)).contains g.party = false := by simpa using d
-                    simp [hc, he, hes, a, b, d'] at h
+                    simp [hc, he, hes, a, b] at h
                     split at h <;> simp at h
                 · simp [hc, he, hes, a, b, c] at h
               · simp [hc, he, hes, a, b] at h
